@@ -393,7 +393,7 @@ func GenOverrideWorld(ch *Choices, thorough bool) *IntegWorld {
 	w.Tasks = []*TaskSpec{t}
 	if ch.Bool(1, 3, "named-context") {
 		// a named context is one object shared by every run of the task
-		w.Contexts = []*CtxSpec{{Name: "c0", NBefore: ch.Choose(2, "ncb"), NAfter: ch.Choose(2, "nca")}}
+		w.Contexts = []*CtxSpec{{Name: "c0", NBefore: ch.Choose(2, "ncb"), NAfter: ch.Choose(2, "nca"), NDown: ch.Choose(2, "ndown")}}
 		t.Context = "c0"
 	}
 	npipe := 1
